@@ -41,7 +41,7 @@ fn c14_program(rng: &mut Rng) -> String {
         let mut body = String::new();
         body.push_str(&format!("let f{} = {}; let tag = {}; ", i, i * 10, i));
         let pool: Vec<String> =
-            ["m0", "m1", "m2", "get", "set", "bump"].iter().map(|x| x.to_string()).chain(C14_OPS.iter().map(|x| x.to_string())).collect();
+            ["m0", "m1", "m2", "get", "set", "bump", "add", "eq"].iter().map(|x| x.to_string()).chain(C14_OPS.iter().map(|x| x.to_string())).collect();
         for name in pool {
             if !rng.chance(2, 5) {
                 continue;
@@ -54,6 +54,7 @@ fn c14_program(rng: &mut Rng) -> String {
                 "get" => format!("function get(i) -> begin print(\"L{}.get(~);\", i); this.f{} + i end; ", i, i),
                 "set" => format!("function set(i, v) -> begin print(\"L{}.set(~,~);\", i, v); this.f{} <- v end; ", i, i),
                 "bump" => format!("function bump() -> this.f{} <- this.f{} + 1; ", i, i),
+                "add" | "eq" => format!("function {}(o) -> begin print(\"L{}.{}(~) t=~;\", o, this.tag); {} end; ", name, i, name, ret),
                 op => format!("function {}(o) -> begin print(\"L{}.{}(~) t=~;\", o, this.tag); {} end; ", op, i, op, ret),
             };
             body.push_str(&def);
@@ -76,6 +77,10 @@ fn c14_program(rng: &mut Rng) -> String {
         uniq += 1;
         let u = uniq;
         match rng.below(20) {
+            19 if levels.iter().take(j + 1).any(|l| l.methods.iter().any(|x| x == "add" || x == "eq")) || base == 1 => {
+                let m = if rng.coin() { "add" } else { "eq" };
+                s.push_str(&format!("print(\"=~\\n\", c{}.{}(3));\n", j, m));
+            }
             0 | 1 => {
                 let avail: Vec<&str> = ["m0", "m1", "m2", "bump"].iter().cloned().filter(|m| levels.iter().take(j + 1).any(|l| l.methods.iter().any(|x| x == m))).collect();
                 let m = if !avail.is_empty() && !rng.chance(1, 12) { *rng.pick(&avail) } else { *rng.pick(&["m0", "m1", "m2", "bump"]) };
@@ -390,6 +395,14 @@ pub fn c07(ctx: &Ctx, rep: &mut Report) {
         let v = |s: &str| AST::access_variable(idn(s));
         let fixed: Vec<(&str, AST)> = vec![
             ("a.b.c", AST::access_field(AST::access_field(v("a"), idn("b")), idn("c"))),
+            ("a.b.c.m(1)", AST::call_method(AST::access_field(AST::access_field(v("a"), idn("b")), idn("c")), idn("m"), vec![AST::Integer(1)])),
+            ("a.b.c.d.+(1)", AST::call_method(AST::access_field(AST::access_field(AST::access_field(v("a"), idn("b")), idn("c")), idn("d")), idn("+"), vec![AST::Integer(1)])),
+            ("a.b.c.d <- 1", AST::assign_field(AST::access_field(AST::access_field(v("a"), idn("b")), idn("c")), idn("d"), AST::Integer(1))),
+            ("a.b.c[1] <- 2", AST::assign_array(AST::access_field(AST::access_field(v("a"), idn("b")), idn("c")), AST::Integer(1), AST::Integer(2))),
+            ("a.b.c[1]", AST::access_array(AST::access_field(AST::access_field(v("a"), idn("b")), idn("c")), AST::Integer(1))),
+            ("f(1).b.c.print(2)", AST::call_method(AST::access_field(AST::access_field(AST::call_function(idn("f"), vec![AST::Integer(1)]), idn("b")), idn("c")), idn("print"), vec![AST::Integer(2)])),
+            ("2 /***/ + 3 /** x **/ /* * */ /*/*/", AST::call_method(AST::Integer(2), idn("+"), vec![AST::Integer(3)])),
+            ("a /* 1 */ - /**/ b // c", AST::call_method(v("a"), idn("-"), vec![v("b")])),
             ("a.b(1).c[2]", AST::access_array(AST::access_field(AST::call_method(v("a"), idn("b"), vec![AST::Integer(1)]), idn("c")), AST::Integer(2))),
             ("a[1][2] <- 3", AST::assign_array(AST::access_array(v("a"), AST::Integer(1)), AST::Integer(2), AST::Integer(3))),
             ("a.b.c <- 1", AST::assign_field(AST::access_field(v("a"), idn("b")), idn("c"), AST::Integer(1))),
